@@ -183,8 +183,36 @@ func TestE2EReplay(t *testing.T) {
 		deadline = time.Now().Add(d)
 	}
 	var wg sync.WaitGroup
-	for wk := 0; wk < runtime.NumCPU(); wk++ {
+	nw := runtime.NumCPU()
+	cur := make([]int64, nw)   // item a worker is on (-1: none)
+	since := make([]int64, nw) // unix nanoseconds when it started it
+	for i := range cur {
+		cur[i] = -1
+	}
+	// hang watchdog (real time, outside the bubbles): a path takes milliseconds; one that has not finished after a
+	// minute sits in a bubble whose engines no longer make progress while its ticker keeps the virtual clock racing
+	// (the bubble can be neither left nor killed): report it, write the results and end the process
+	go func() {
+		for {
+			time.Sleep(time.Second)
+			for w := 0; w < nw; w++ {
+				i, t0 := atomic.LoadInt64(&cur[w]), atomic.LoadInt64(&since[w])
+				if i >= 0 && t0 > 0 && time.Since(time.Unix(0, t0)) > 30*time.Second {
+					mu.Lock()
+					res.Violations = append(res.Violations, e2eViolation{items[i], "engine-hung", "the real pair made no further progress on this path (the run did not finish within 30 s of real time; virtual time is free): an engine goroutine is blocked for ever", nil})
+					res.NotRun += len(items) - res.Replayed - res.NotRun - 1
+					ob, _ := json.Marshal(res)
+					if outPath != "" {
+						os.WriteFile(outPath, ob, 0o644)
+					}
+					os.Exit(0)
+				}
+			}
+		}
+	}()
+	for wk := 0; wk < nw; wk++ {
 		wg.Add(1)
+		wk := wk
 		go func() {
 			defer wg.Done()
 			for {
@@ -201,7 +229,10 @@ func TestE2EReplay(t *testing.T) {
 				if stop {
 					continue
 				}
+				atomic.StoreInt64(&since[wk], time.Now().UnixNano())
+				atomic.StoreInt64(&cur[wk], int64(i))
 				rule, what, trace, matched, frames, diverge, err := e2eRun(t, items[i], fmt.Sprintf("%d.%d", os.Getpid(), i))
+				atomic.StoreInt64(&cur[wk], -1)
 				mu.Lock()
 				res.Replayed++
 				res.Frames += frames
